@@ -172,6 +172,15 @@ pub fn c03(r: &mut Rng, t: u32, n: usize) -> Vec<Value> {
                 let (xc, yc) = sign2(r, clampc2(xc), yc);
                 v.push(bin(t, op, dj(xc, p as u8), "dec", dj(yc, q as u8), "dec", 0, r.below(4)));
             }
+            6 => {
+                // floor quotient = i128::MAX with a non-zero remainder: rounding up must signal overflow
+                let (x, y, k) = max_quotient_construct(r);
+                let q = r.below(16) as u32;
+                let p = 18 + q - k;
+                if p > 18 { continue; }
+                let (x, y) = sign2(r, x, y);
+                v.push(bin(t, op, dj(x, p as u8), "dec", dj(y, q as u8), "dec", 0, r.below(4)));
+            }
             5 => {
                 let (c, f) = decimal(r);
                 v.push(json!({"ev": "accset", "t": t, "x": dj(c, f)}));
@@ -202,7 +211,7 @@ pub fn c04(r: &mut Rng, t: u32, n: usize) -> Vec<Value> {
     let mut v = vec![];
     while v.len() < n {
         maybe_set(r, t, &mut v, 4);
-        match r.below(12) {
+        match r.below(13) {
             0 | 1 | 2 => {
                 let nn = r.below(19) as u32;
                 if let Some((x, p, y, q)) = div_case(r, nn) {
@@ -223,6 +232,16 @@ pub fn c04(r: &mut Rng, t: u32, n: usize) -> Vec<Value> {
                 let xc = base + match r.below(3) { 0 => 0, 1 => 1, _ => yc - 1 };
                 let (xc, yc) = sign2(r, xc, yc);
                 v.push(bin(t, "div_rounded", dj(xc, p as u8), "dec", dj(yc, q as u8), "dec", nn as i64, r.below(4)));
+            }
+            11 => {
+                let (x, y, k) = max_quotient_construct(r);
+                let q = r.below(10) as u32;
+                let nn = r.below(19) as u32;
+                if nn + q < k { continue; }
+                let p = nn + q - k;
+                if p > 18 { continue; }
+                let (x, y) = sign2(r, x, y);
+                v.push(bin(t, "div_rounded", dj(x, p as u8), "dec", dj(y, q as u8), "dec", nn as i64, r.below(4)));
             }
             5 => {
                 // rejection clause n > 18, all operand type combinations
@@ -777,6 +796,12 @@ pub fn c16(r: &mut Rng, t: u32, n: usize) -> Vec<Value> {
             _ => {
                 // a*10^k / m
                 let k = r.below(39) as u32;
+                if r.below(6) == 0 {
+                    let (x, y, k2) = max_quotient_construct(r);
+                    let a = neg1!(r, x);
+                    v.push(json!({"ev": "wide", "t": t, "op": "i128_shifted_div_rounded", "a": num(a), "b": num(0), "k": k2, "m": num(y), "mode": mode}));
+                    continue;
+                }
                 let (a, mm) = match r.below(4) {
                     0 => { let (x, y) = div_construct(r, k); (x, y) }
                     1 => { let (x, y) = tie_construct(r, k); (x, y) }
